@@ -211,6 +211,38 @@ def ml_string_families(ctx, text, cfg):
     return {"ml_tokens": len(ml), "in_family_with_children": with_children}
 
 
+def voided_parent_with_children(ctx, text, cfg):
+    """For the F41 class detector: after the ignorers ran, is there a logical line that is NOT voided but whose parent
+    line IS (all of the parent's tokens lie in a disabled region)?  Such child lines are never visited by the wrapper."""
+    c = Case("voidpar", cfg, [], text)
+    try:
+        results, files, wd = runner.run_cases([c], mode="trace")
+    except Exception:
+        return False
+    ctx.workdirs.append(wd)
+    lines, lab = [], None
+    for tf in files:
+        try:
+            fh = open(tf, errors="replace")
+        except OSError:
+            continue
+        with fh:
+            for ln in fh:
+                p = ln.split()
+                if not p:
+                    continue
+                if p[0] == "LINES":
+                    lab = p[1]
+                elif p[0] in ("STATE", "OUT", "PARSED", "GENERICS", "RAW"):
+                    lab = None
+                elif p[0] == "l" and lab == "pre":
+                    lines.append((p[1], int(p[3])))
+    for ty, par in lines:
+        if ty != "Voided" and 0 <= par < len(lines) and lines[par][0] == "Voided":
+            return True
+    return False
+
+
 def real_token_spans_lines(ctx, text):
     """does the REAL lexer produce a token (other than Eof) whose content holds a line break?"""
     c = Case("spans", gen.DEFAULT_CFG, [], text)
@@ -593,6 +625,14 @@ def run_c08(ctx):
         cases.append(ctx.case(kind, text, gen.DEFAULT_CFG, meta={"wellformed": True}))
     # disabled regions inside statements: the tokens around them are formatted as usual (spacing, canonical counters)
     for text, kind, wrap in wellformed_texts(ctx, ctx.n(60, 1500))[:: ctx.n(3, 1)]:
+        if rng.random() < 0.6 and "'''" not in text and not gen.has_asm_or_toggle(text):
+            # several blank lines INSIDE statements: around a region that ends mid-statement they belong to formatted tokens again
+            toks = gen.tokenize(text)
+            for gi in rng.sample(range(len(toks)), min(len(toks), 3)):
+                if toks[gi][0] == "ws" and 0 < gi < len(toks) - 1 and not gen.is_comment_kind(toks[gi - 1][0]) and not gen.is_comment_kind(toks[gi + 1][0]) \
+                        and toks[gi - 1][0] not in ("unk", "str", "num", "mls") and toks[gi + 1][0] not in ("unk", "str", "num", "mls"):
+                    toks[gi] = ("ws", "\n\n\n\n" + " " * rng.randrange(0, 9))
+            text = "".join(t for _, t in toks)
         r = insert_region(text, rng)
         if r is not None:
             cases.append(ctx.case("region", r[0], gen.random_cfg(rng, wrap=rng.choice([wrap, 120, 1000000])), meta={"invalid": True}))
@@ -601,6 +641,15 @@ def run_c08(ctx):
     other = [c for c in cases if not c.meta.get("wellformed")]
     ctx.run_stream(wf_cases, units=["canon", "lineend", "invariants", "recon", "eofnl", "settings", "wrapapply"], oracle=oracle)
     ctx.run_stream(other, units=["canon", "lineend", "recon", "eofnl", "settings", "wrapapply", "spacing"], oracle=oracle)
+    # class attribute of finding F41, decided on the trace, for failures of inputs with disabled regions
+    for f in ctx.failures:
+        if "voided_parent" not in f and f.get("input_hex") and f.get("cfg"):
+            try:
+                t = bytes.fromhex(f["input_hex"]).decode("utf-8")
+            except (ValueError, UnicodeDecodeError):
+                continue
+            if "pasfmt" in t.lower():
+                f["voided_parent"] = voided_parent_with_children(ctx, t, tuple(f["cfg"]))
     ctx.hypotheses["H-W1 canon_fmt (final per-token data: line start => no spaces; continuation => <= 1 space, no indentation; <= 1 blank line)"] = "unit canon on every trace"
     ctx.hypotheses["no content ends in a blank before a line break"] = "unit lineend on every trace (classes F3/F7 matched against known findings)"
 
@@ -1489,6 +1538,8 @@ def run_c03(ctx):
         first.append(ctx.case(kind, text, gen.DEFAULT_CFG))
     for _ in range(ctx.n(400, 8000)):
         first.append(ctx.case("literal", literal_text(rng), gen.random_cfg(rng)))
+    # lines re-wrapped after a multi-line literal was re-indented (tokens decided twice), at boundary widths
+    first += boundary_width_cases(ctx, twice_decided_texts(ctx, ctx.n(60, 1000), ctx.n(200, 3000)), "twice-decided", input_lines=True)
     res1 = ctx.run_stream(first, mode="fmt")
     second = []
     for c in first:
@@ -1671,7 +1722,8 @@ def run_c11(ctx):
     # boundary widths: for a part of the pool, widths at and next to the lengths of the lines of an
     # unconstrained formatting (where a label list, a parameter list or an argument list starts to wrap)
     bpool = pool[:: ctx.n(4, 1)]
-    probes = [ctx.case("probe", t, (1000000000,) + tuple(gen.random_cfg(rng)[1:])) for t, _, _ in bpool]
+    # (half of them with un-normalised trailing comments: `//x`, trailing blanks - what the wrapper measures must be what is written)
+    probes = [ctx.case("probe", add_raw_comments(t, rng) if rng.random() < 0.5 else t, (1000000000,) + tuple(gen.random_cfg(rng)[1:])) for t, _, _ in bpool]
     pres = ctx.run_stream(probes, mode="fmt")
     for pc in probes:
         r = pres.get(pc.id)
